@@ -35,29 +35,23 @@ theorem setInputGroups_ok (E : Env) (sts : Sts) (N : Nat) (hA : InvA E sts N) (n
   simp only [hs.comb, hs.ownComb, List.filter_nil, List.isEmpty_nil, if_true, mergePrev_nil, hcur,
     splitsGroups_own nd hF.notInner, bind, Except.bind, pure, Except.pure, dedup]
   have hleft : ∀ b : Bool, (!s.prev.isEmpty && b &&
-      (List.filter (fun c => !([] : List Key).contains c) (List.flatMap oleaves (finalsOf sts s.prev))).isEmpty) = false := by
+      (List.flatMap (prevGroupKeys sts []) s.prev).isEmpty) = false := by
     intro b
     cases hp : s.prev with
     | nil => simp
     | cons u rest =>
-      have hall := finals_all_some E sts N hA s.prev (by rw [hsprev]; exact hprev)
-      rw [hp] at hall
-      have hu := hall ((sts.getSt u).finalTree) (by simp [finalsOf])
-      obtain ⟨t, ht⟩ := Option.isSome_iff_exists.mp hu
-      have : (List.filter (fun c => !([] : List Key).contains c)
-          (List.flatMap oleaves (finalsOf sts (u :: rest)))).isEmpty = false := by
+      have hu : u ∈ (sUps E nd).map (·.2) := by rw [← hsprev, hp]; simp
+      obtain ⟨su, hget, hok⟩ := hA.some u (hprev u hu).1 (hprev u hu).2
+      have hfull : su.finalTree.isSome = true := by rw [hok.final]; exact hok.full
+      obtain ⟨t, ht⟩ := Option.isSome_iff_exists.mp hfull
+      have hkeys : prevGroupKeys sts [] u = t.leaves := by
+        unfold prevGroupKeys St.groupKeysNow
+        simp [getSt_of_get hget, hok.comb, ht, oleaves]
+      have : (List.flatMap (prevGroupKeys sts []) (u :: rest)).isEmpty = false := by
         rw [List.isEmpty_eq_false_iff]
-        cases hl : t.leaves with
-        | nil => exact absurd hl (leaves_ne_nil t)
-        | cons a l =>
-          intro hnil
-          have hmem : a ∈ List.filter (fun c => !([] : List Key).contains c)
-              (List.flatMap oleaves (finalsOf sts (u :: rest))) := by
-            rw [List.mem_filter]
-            refine ⟨?_, by simp⟩
-            rw [List.mem_flatMap]
-            exact ⟨(sts.getSt u).finalTree, by simp [finalsOf], by rw [ht]; simp [oleaves, hl]⟩
-          rw [hnil] at hmem; simp at hmem
+        intro hnil
+        simp only [List.flatMap_cons, List.append_eq_nil_iff] at hnil
+        exact leaves_ne_nil t (hkeys ▸ hnil.1)
       rw [this, Bool.and_false]
   split <;> simp only [hleft, Bool.false_eq_true, if_false]
 
